@@ -829,3 +829,15 @@ def check_C16(ctx):
     ctx.cov["rule"] = FRAME_RULE + "; after every scenario (normal, cancel, render error, pop, queued, n>q, perturbed) the worker waits up to 1 s and lists goroutines with a library frame"
     ctx.assumptions = ["leak = goroutine with a frame of github.com/vbauerster/mpb/v8 still alive after the settle period"]
     frames_check(ctx, set(), M.c16_monitor, 300, 8000, CONT_DEPS | {"Props/C16.v"}, fams=ALLFAMS)
+
+
+@check
+def check_C12(ctx):
+    ctx.cov["rule"] = FRAME_RULE + ("; bars carry 0-3 synchronised decorators per side (minimum widths, extra space, indent, "
+                                    "wrapped in on-complete / on-abort / meta wrappers, text width varying with progress); "
+                                    "non-trivial = a cycle with a column of at least two bars")
+    ctx.assumptions = ["one decorator instance per bar (documented usage)"]
+    frames_check(ctx, {"HM_SYNC", "HM_PUSH"}, M.c12_monitor, 300, 8000,
+                 {"Base.v", "Sync.v", "SyncProofs.v", "Decor.v", "DecorProofs.v", "Container.v", "ContainerProofs.v", "Props/C12.v"},
+                 nontrivial=lambda case, frames: any(" DIST_COLLECTED " in l and l.count(",") >= 2 for l in case["trace"]),
+                 fams=[("frames", 0.5, True), ("sched", 0.5, True)])
